@@ -146,6 +146,14 @@ def run_fields(ctx, p):
     m = p["truth"]
     s = ctx.make(Blake, ref_density=p["ref_density"], cavity_radius=p["cavity_radius"],
                  pressure_scale=p["pressure_scale"], **p["given"])
+    # two cases out of three: other Blake solvers (another material, the defaults) are constructed between the construction
+    # and the evaluation of the solver under test - its fields must still be those of *its* six constants
+    k = int(round(p["ref_density"] * 1e6)) % 3
+    if k >= 1:
+        ctx.make(Blake, shear_mod=m["shear_mod"] * 2.3, bulk_mod=m["bulk_mod"] * 0.7 + m["shear_mod"], ref_density=p["ref_density"] * 1.7,
+                 cavity_radius=p["cavity_radius"] * 0.6, pressure_scale=p["pressure_scale"] * 3.0)
+    if k == 2:
+        ctx.make(Blake)
     a, rho, ps, t = p["cavity_radius"], p["ref_density"], p["pressure_scale"], p["t"]
     cl = math.sqrt(m["long_mod"] / rho)
     front = a + cl * t
